@@ -20,7 +20,7 @@ RULE = (
     "Trend(1), Spline(damping), KNeighbors(2), Vector[Trend(1), Trend(0)]} x cv {default, KFold(2), KFold(3), ShuffleSplit, BlockKFold, "
     "BlockShuffleSplit} x scoring {None, r2, neg_mean_squared_error, neg_mean_absolute_error, make_scorer callable} x execution {serial, "
     "fake client in every submission-completion order, dask.delayed under EVERY interleaving of the per-split tasks at the fit/score "
-    "boundary (preemption bound 2 in quick for 3 splits = all 90 schedules when unbounded)}. train_test_split: datasets x {plain, spacing, "
+    "boundary (preemption bound 2 in quick for 3 splits = all 90 schedules when unbounded), and line-granular interleavings of verde's own fit_score / score_estimator code with preemption bound 1}. train_test_split: datasets x {plain, spacing, "
     "shape} x seeds 0..5 x test sizes. SplineCV: every permutation of the damping grid {1e-4, 1e-1, 1e2} x mindists x cv x delayed "
     "(explorer installed as the dask scheduler, every task order / bounded interleavings). Non-trivial: the three wrong alternatives "
     "(scored on train rows, fitted on all rows, unweighted) differ from the right score by > 1e-3."
@@ -61,6 +61,14 @@ def cases(tier, seed):
                 yield dict(kind="cvs", ds=0, est=est, w=True, cv=cv, scoring=SCORERS.index(sc), mode="client")
                 yield dict(kind="cvs", ds=0, est=est, w=True, cv=cv, scoring=SCORERS.index(sc), mode="delayed",
                            bound=(2 if tier == "quick" else None))
+    # line-granular interleavings (every executed line of verde's fit_score / score_estimator / score is a scheduling point,
+    # preemption bound 1): finds races between a task's steps without hand-placed points (seed C12-r2_1: a scorer/dummy-estimator
+    # pair shared between tasks through a cache)
+    lines_cases = [("T1", "kfold3", None), ("T0", "kfold2", "callable")]
+    if tier == "thorough":
+        lines_cases += [(est, cv, sc) for est in EST for cv in ("kfold3", "blockkfold") for sc in (None, "neg_mean_squared_error")]
+    for est, cv, sc in lines_cases:
+        yield dict(kind="cvs", ds=0, est=est, w=True, cv=cv, scoring=SCORERS.index(sc), mode="delayed", bound=1, lines=True)
     for ds in (0, 1):
         for mode in ("plain", "spacing", "shape"):
             for sd in range(6):
@@ -335,7 +343,11 @@ def run(case, rec):
 
         def run_sched(prefix):
             est = make_est(key, instrumented=True)
-            b = S.Baton(prefix)
+            if case.get("lines"):
+                b = S.Baton(prefix, trace_files=("verde/model_selection.py", "verde/base/utils.py", "verde/base/base_classes.py"),
+                            trace_funcs=("fit_score", "score_estimator", "score", "predict", "fit", "get_scorer"))
+            else:
+                b = S.Baton(prefix)
             scores = vd.cross_val_score(est, (e, n), data, weights=wts, cv=make_cv(cvkey), scoring=make_scoring(si), delayed=True)
             out = dask.compute(*scores, scheduler=b)
             return (tuple(float(x) for x in out), _fitted_attrs(est)), b
